@@ -124,6 +124,6 @@ def part_programs(part, n):
 
 def parts(tier, seed):
     if tier == "quick":
-        return [(f"programs-{i}", part_programs, {"n": 500})
-                for i in range(8)]
+        return [(f"programs-{i}", part_programs, {"n": 1200})
+                for i in range(10)]
     return [(f"programs-{i}", part_programs, {"n": 12000}) for i in range(12)]
